@@ -11,7 +11,7 @@ NOT_APPLICABLE = {
     "C04": "statistical claim (expected FDP over a distribution of datasets under exchangeability): not expressible "
            "as a single-run function contract; its structural premises are decided under C01/C02/C03 (DESIGN.md 5)",
 }
-for _p in ["C02", "C03", "C08", "C15", "C16", "C18", "C20"]:
+for _p in ["C03", "C15", "C18"]:
     NOT_APPLICABLE[_p] = _PENDING
 
 CHECKS = {
@@ -201,5 +201,74 @@ CHECKS = {
         "technique": "sidecar contracts with ghost state (cursor map, emission log and its inverse), modular call, "
                      "loop invariant with stepping-stone assertions; z3/cvc5; exhaustive small merges as bounded "
                      "stand-in",
+    },
+    "C02": {
+        "category": "other",
+        "text": "Deductive core + bounded stand-in. Proved for all inputs (unbounded): make_train_sets (four nested "
+                "loops incl. the chunked set difference and the capped sampling) - for every fold f and collection "
+                "j the training indices are rows of collection j and NONE of them is in the held-out fold f, with "
+                "and without a training-size cap (ValueError of rng.choice admitted only when a cap is given - the "
+                "recorded finding); _fit_model - the fitted model is tagged with its 1-based fold number, the key "
+                "brew sorts the models by. NOT proved: OnDiskPsmDataset._split (crc32/np.unique/searchsorted), the "
+                "fold->model index block of brew (parked: the routing clause does not discharge), _predict and "
+                "parse_in_chunks (pandas). These are decided by the bounded run: brew end to end with a recording "
+                "estimator (held-out scoring, spectra never split, caps), _split and make_train_sets on random "
+                "inputs. Five bounded findings are listed in known_findings.json.",
+        "design_ref": "DESIGN.md 4.C02",
+        "note": "list(set) = some duplicate-free enumeration; Generator.choice(replace=False) = selection from the "
+                "population (ValueError if too small); zip(*x) over equally long lists; estimator internals, pandas "
+                "and joblib are outside the contracts",
+        "technique": "sidecar contracts with loop invariants over sets and nested lists; z3/cvc5; recording-estimator "
+                     "runs as bounded stand-in",
+    },
+    "C08": {
+        "category": "other",
+        "text": "Narrow claim (see DESIGN.md 5): the headline statement relates two executions and is out of reach "
+                "of single-run function contracts. Checked deductively in the weak sense of FRAME obligations: for "
+                "24 functions on the seeded path the current source is scanned for tagged reads of run-to-run "
+                "nondeterminism (global numpy/random RNG state, fresh entropy, string-hash-seed dependence via "
+                "hash() or set iteration idioms, directory listing order) and every read outside the function's "
+                "declared frame fails an obligation; declared exceptions carry their justification (integer sets, "
+                "order normalised by reindex; decoy shuffling uses the global RNG by design). Bounded (not proof): "
+                "the same analysis twice in process and in fresh interpreters with different PYTHONHASHSEED, all "
+                "orders of the returned models fed back. One bounded finding (protein level with a target-only "
+                "FASTA depends on the hash seed) is listed in known_findings.json.",
+        "design_ref": "DESIGN.md 4.C08, 5",
+        "note": "syntactic analysis of direct calls in the listed functions only; numpy/sklearn/BLAS numerics and "
+                "thread timing are not modelled; determinism of each modelled function is an assumption of the "
+                "verifier's semantics, not a result",
+        "technique": "frame (reads) obligations by syntactic tagging of library calls; two-session bounded replay",
+    },
+    "C16": {
+        "category": "other",
+        "text": "Mostly bounded; two deductive loop contracts. Proved for all inputs (unbounded): the target/decoy "
+                "pairing loop of read_fasta (exactly the proteins whose name does not START with the decoy prefix "
+                "are mapped, each to prefix + name; has_targets / has_decoys flags) and the unique/shared split "
+                "(exactly the peptides held by one group are unique and mapped to it, exactly those held by two or "
+                "more are shared). _group_proteins (maximal-subset grouping, order and hash-seed independence) is a "
+                "protocol-level induction over mutable maps of sets and is decided by the bounded run: all "
+                "incidence structures of <= 3 proteins x 4 peptides in all entry orders and decoy layouts "
+                "(<= 4 x 4 and several hash seeds in the thorough tier).",
+        "design_ref": "DESIGN.md 4.C16",
+        "note": "strings abstract; a group's protein set is an opaque finite set (cardinality, some element, joined "
+                "string); dict iteration = insertion order",
+        "technique": "block contracts with loop invariants over dictionaries; z3/cvc5; exhaustive small structures "
+                     "as bounded stand-in",
+    },
+    "C20": {
+        "category": "other",
+        "text": "Deductive core + bounded stand-in. Proved for all inputs (unbounded), over abstract XML elements: "
+                "_parse_psm - a hit is labelled a decoy exactly when EVERY one of its proteins (primary and "
+                "alternative, first token) carries the decoy prefix; the protein list starts with the primary "
+                "accession and contains the accession of every alternative_protein element and nothing else. The "
+                "modification insertion (string surgery with a running offset) is abstracted in the proof; it, the "
+                "nested generators over runs / spectra / hits, the spectrum attributes, the feature post-processing "
+                "and the rejection of Percolator / non-PepXML input are decided by the bounded run on generated "
+                "documents.",
+        "design_ref": "DESIGN.md 4.C20",
+        "note": "lxml get/iter as assumed contracts; the PSM dict is a record (a search score named like a reserved "
+                "key is assumed not to occur); strings abstract",
+        "technique": "sidecar contract with loop invariant over an element sequence and record fields; z3/cvc5; "
+                     "generated PepXML documents as bounded stand-in",
     },
 }
